@@ -23,7 +23,7 @@ RULE = ('signatures: every Signature.create/sign result over keys {1, 2, n-2, n-
         'explicit random, explicit with s constructed into (n//2, 2^255], explicit boundary controls, random-k '
         'opt-out} x hash-type bytes 0..255 x call forms (create/sign, Key/HDKey/hex key, bytes/hex digest), plus '
         'signatures made inside Transaction.sign; verifier triples: reference-signed (r,s) in forms '
-        '{object, raw, raw hex, DER, DER hex} x public-key forms x classes {valid, high-S twin, r/s in {0,n,n+1}, '
+        '{object, raw, raw hex, DER, DER hex} x public-key forms x classes {valid, high-S twin, r/s in {0,n,n+1,+n,negated}, '
         'swapped, wrong key, digest+-1, digest+n, off-curve / garbage public key, malformed DER, lax DER, short '
         'DER, wrong raw length}; non-trivial = distinct (key class, digest class, nonce mode, hash-type bucket, '
         'form) resp. (triple class, signature form, public-key form, api)')
@@ -37,7 +37,7 @@ ASSUMPTIONS = ['fastecdsa code path (USE_FASTECDSA); the pure-python ecdsa fallb
                'lax-but-decodable DER (BIP66 violations that still decode to an (r,s)) may be accepted or refused; '
                'accepting it is a violation only when the decoded (r,s) does not verify',
                'any raised exception is a refusal (DESIGN 2.4)']
-EXHAUSTIVE = ['hash-type bytes 0..255', 'r and s in {0, n, n+1} in every signature form']
+EXHAUSTIVE = ['hash-type bytes 0..255']
 
 N = R.N
 HALF = N // 2            # integer half order: low-S means s <= HALF
@@ -614,6 +614,7 @@ def gen_triples(rnd, n, col_unused=None):
                 ('r=0', 0, lo, z, d), ('r=n', N, lo, z, d), ('r=n+1', N + 1, lo, z, d),
                 ('s=0', r, 0, z, d), ('s=n', r, N, z, d), ('s=n+1', r, N + 1, z, d),
                 ('r-s-swapped', lo, r, z, d), ('r+1', r + 1, lo, z, d), ('s+1', r, lo + 1, z, d),
+                ('r+n', r + N, lo, z, d), ('s+n', r, lo + N, z, d), ('s=-s', r, -lo, z, d),
                 ('wrong-key', r, lo, z, d2 if d2 != d else d2 % (N - 1) + 1),
                 ('digest+1', r, lo, (z + 1) % 2 ** 256, d), ('digest-1', r, lo, (z - 1) % 2 ** 256, d)]
         if z + N < 2 ** 256:
@@ -621,7 +622,7 @@ def gen_triples(rnd, n, col_unused=None):
         if z >= N:
             rows.append(('digest-n', r, lo, z - N, d))
         for cls, rr, ss, zz, dd in rows:
-            form = rnd.choice(SIG_FORMS)
+            form = rnd.choice(SIG_FORMS) if min(rr, ss) >= 0 else 'obj'
             sp = _sigspec(form, rr, ss, rnd.choice([1, 1, 0, 2, 3, 0x81, 0x83]))
             if sp is None:
                 sp = _sigspec('obj', rr, ss)
